@@ -23,6 +23,10 @@ def register(db):
                1: MapComp(fn="depTagChildren", elem="CSeq(2, ofNodes(depTags(c, lib_prefix, include_version)))", args={"lp": "lib_prefix", "iv": "include_version"})},
         lemmas=[("L_underscore_noop", {}), ("L_nodes_depTagChildren", {}), ("L_replace_first_same", {}), ("L_first_is_head", {}), ("L_nodes_one", {}), ("L_nappend_assoc", {}), ("L_nappend_nil", {})],
         props=P))
+    db.get(DOC + "_hoist_head_content").diff = DiffSpec(
+        params=[("x", "Node"), ("lp", "OptStr"), ("iv", "Bool")], gen=_hoist_gen,
+        steps=lambda v: [{"let": "r", "call": "htmltools._core.HTMLDocument._hoist_head_content", "args": [v["x"], v["lp"], v["iv"]]}],
+        expected="hoist(x, lp, iv)", raises=[("ValueError", "not isNamed(x, 'html')")], ret_sort="Node", requires=["isEl(x)"])
     db.add(Contract(name=CORE + "HTMLDependency.serialize_to_script_json", params=[("self", "Dep"), ("indent", "Any")], returns="Node", self_class="HTMLDependency",
                     ensures=["result == jsonTag(self)", "isEl(result)", "not hasObT(result)"], fresh=True, verify=False, props=["C13", "C08", "C18"],
                     note="the serialised <script> element of one dependency is an uninterpreted function of the dependency here (its content is C13's subject)"))
@@ -85,6 +89,25 @@ def _doc_gen(g):
         else:
             content = kids(r.choice([0, 1, 2, 3]))
         return {"content": mk_list("NodeList", content), "attrs": g.gen("ArgDict", 1), "lp": g.gen("OptStr"), "iv": r.random() < 0.5}
+    finally:
+        g.atoms = saved
+
+
+def _hoist_gen(g):
+    "an <html> tag in the shapes _doc_gen produces (a <head> with attributes and children in any position, dependencies anywhere), already tagified"
+    from ..replay import mk_list
+    from ..speclang import REG
+    C = {n: c.pyclass for n, c in REG.ctors.items()}
+    r = g.r
+    saved = dict(g.atoms)
+    g.atoms = dict(g.atoms, allow_ob=False)
+    try:
+        ks = [g.gen("Node", 1) for _ in range(r.choice([0, 1, 2, 3]))]
+        if r.random() < 0.7:
+            head = C["El"]("head", r.random() < 0.8, g.gen("AttrList"), mk_list("NodeList", [g.gen("Node", 1) for _ in range(r.choice([0, 1, 2]))]))
+            ks.insert(r.randint(0, len(ks)), head)
+        name = "html" if r.random() < 0.9 else "div"
+        return {"x": C["El"](name, True, g.gen("AttrList"), mk_list("NodeList", ks)), "lp": g.gen("OptStr"), "iv": r.random() < 0.5}
     finally:
         g.atoms = saved
 
